@@ -34,6 +34,10 @@ def leaves_full():
         ('2', 2),
         ('2^53', 2 ** 53),
         ('2^53+1', 2 ** 53 + 1),
+        ('2^53f', float(2 ** 53)),
+        ('2^53+2f', float(2 ** 53 + 2)),
+        ('-2^53-1', -(2 ** 53) - 1),
+        ('-2^53f', -float(2 ** 53)),
         ('1e300', 1e300),
         ("''", ''),
         ("'a'", 'a'),
